@@ -89,6 +89,7 @@ fn main() {
         "C09" => props::c09::check(&ctx),
         "C10" => props::c10::check(&ctx),
         "C11" => props::c11::check(&ctx),
+        "C12" => props::c12::check(&ctx),
         "C13" => props::c13::check(&ctx),
         _ => {
             eprintln!("unknown property {prop}");
